@@ -780,7 +780,68 @@ def applyRetainAll (norm : String → String) (defs : String → Option (List (O
     (table : List (String × Nat)) : String → Option (List (Option Nat)) :=
   table.foldl (applyRetain norm) defs
 
-/-! ## 6. The property on observed runs -/
+/-! ## 7. Import lists (`collect_using_directives`, harness/util.rs) and named arguments
+(`bind_stdlib_named_args_variadic`, eval/expr/call.rs)
+
+Two orders that the SOURCES fix: the list of imported namespaces that the first-match-wins lookups
+of the lowering and of the evaluator walk, and the order in which the argument expressions of a
+formal call are evaluated.  Neither function keeps a hash container (the scanned table pins that);
+the models below say what a clean-up / a slot table may do with one without exposing its order,
+and what exposes it. -/
+
+/-- `collect_using_directives`: the USING names of the enclosing scopes, outermost scope first,
+each scope in source order; nothing is dropped or re-ordered. -/
+def collectUsing {σ : Type} (chain : List (List σ)) : List σ := chain.flatten
+
+/-- `resolve_type_name` / `resolve_named_type` (harness/compiler/types.rs) and
+`resolve_using_function` (eval/expr/call.rs): the first imported namespace that declares the name. -/
+def resolveUsing {σ : Type} (declares : σ → Bool) (imports : List σ) : Option σ := imports.find? declares
+
+/-- A clean-up of repeated imports that rebuilds the list from a hash SET
+(`set.into_iter().collect()`): insert every name, then iterate. -/
+def dedupUsingIterP {σ : Type} : List σ → ProgI Unit σ Nat (List σ)
+  | [] => .iter () fun tbl => .ret (tbl.map Prod.fst)
+  | n :: ns => .insert () n 0 fun _ => dedupUsingIterP ns
+
+/-- One named argument of a formal call: the slot it binds and its expression — a state
+transformer that may fault (the state reached when it faults is kept: storage is changed in place). -/
+structure NArg (σ ε ν : Type) where
+  slot : Nat
+  eval : σ → Except ε ν × σ
+
+/-- Read slots `i, i+1, …` (`n` of them) of the slot table. -/
+def readSlotsK {ν α : Type} : Nat → Nat → (List (Option ν) → Prog Unit Nat ν α) → Prog Unit Nat ν α
+  | 0, _, k => k []
+  | n + 1, i, k => .get () i fun v => readSlotsK n (i + 1) fun vs => k (v :: vs)
+
+/-- `bind_stdlib_named_args_variadic`: the arguments are evaluated in the order in which they are
+WRITTEN, each value is stored under its slot, the first fault ends the call; at the end the slots
+`0 .. count-1` are read.  The slot table is modelled as a hash map that is only inserted into and
+looked up (the `Vec<Option<Value>>` of the code is the insertion-order special case). -/
+def bindNamedArgsP {σ ε ν : Type} (count : Nat) :
+    List (NArg σ ε ν) → σ → Prog Unit Nat ν (Except ε (List (Option ν)) × σ)
+  | [], s => readSlotsK count 0 fun vs => .ret (.ok vs, s)
+  | a :: rest, s =>
+    match a.eval s with
+    | (.error e, s') => .ret (.error e, s')
+    | (.ok v, s') => .insert () a.slot v fun _ => bindNamedArgsP count rest s'
+
+/-- The state after the call: the effects of the arguments in written order, up to and including
+the first one that faults. -/
+def effectsInWrittenOrder {σ ε ν : Type} : List (NArg σ ε ν) → σ → σ
+  | [], s => s
+  | a :: rest, s =>
+    match a.eval s with
+    | (.error _, s') => s'
+    | (.ok _, s') => effectsInWrittenOrder rest s'
+
+/-- The variant that first files the arguments under their slots and then evaluates them while
+ITERATING the slot table; `effect d` is the side effect of the argument stored as `d`. -/
+def evalArgsIterP {σ : Type} (effect : Nat → σ → σ) : List (Nat × Nat) → σ → ProgI Unit Nat Nat σ
+  | [], s => .iter () fun tbl => .ret (tbl.foldl (fun st kv => effect kv.2 st) s)
+  | (slot, d) :: rest, s => .insert () slot d fun _ => evalArgsIterP effect rest s
+
+/-! ## 8. The property on observed runs -/
 
 /-- Executable statement of the property on the observations of one artefact (container bytes,
 or the dump of one cycle) made by several independent processes: the common value if all
